@@ -40,6 +40,8 @@ def run(ctx):
     res.assume("observational equivalence with a rebuilt twin is run-time behaviour and is not decided; only the set/reset discipline of the matcher flags is")
     res.rule('R-PAIR.flags', "every matcher flag written while a child is inserted (choice commitment on every choice of the path, force-validate on ancestors and "
              "siblings' descendants, requirement flags, duplicated branches) has a reset in the call closure of remove() with the same traversal extent")
+    from ..rules import memo, shared
+    memo.check(ctx, cg, ef, res, shared.api_entries(sm))
     add = sm.func('XMLElement', 'add_child', T.M_XMLELEMENT)
     rem = sm.func('XMLElement', 'remove', T.M_XMLELEMENT)
     ins_clo = cg.closure([add])
